@@ -169,12 +169,37 @@ class Sandbox:
         return os.path.join(b(self.root), b(rel)) if rel else b(self.root)
 
 
+FS_IOC_GETFLAGS, FS_IOC_SETFLAGS, FS_IMMUTABLE_FL = 0x80086601, 0x40086602, 0x10
+
+
+def set_immutable(path, on=True):
+    """chattr +i / -i (ext4).  Returns False where the filesystem has no such flag."""
+    import fcntl, struct
+    try:
+        fd = os.open(b(path), os.O_RDONLY | os.O_NONBLOCK | os.O_NOFOLLOW)
+    except OSError:
+        return False
+    try:
+        buf = bytearray(8)
+        fcntl.ioctl(fd, FS_IOC_GETFLAGS, buf)
+        fl = struct.unpack("l", bytes(buf))[0]
+        fl = (fl | FS_IMMUTABLE_FL) if on else (fl & ~FS_IMMUTABLE_FL)
+        fcntl.ioctl(fd, FS_IOC_SETFLAGS, struct.pack("l", fl))
+        return True
+    except OSError:
+        return False
+    finally:
+        os.close(fd)
+
+
 def force_rmtree(p):
     p = b(p)
     if not os.path.lexists(p):
         return
     def onerr(func, path, exc):
         try:
+            set_immutable(os.path.dirname(path), False)
+            set_immutable(path, False)
             os.chmod(os.path.dirname(path), 0o700)
             os.chmod(path, 0o700)
         except OSError:
